@@ -76,7 +76,7 @@ Definition s_state (s : st) : sexp :=
   SList [s_nat (t_len (s_fib s)); s_list (s_pair s_name s_pnode) (t_items (s_fib s) []);
          s_bool (t_pruned (s_fib s)); s_list s_call (s_pending s); s_nat (length (s_calls s))].
 
-(* specification side.  events: (1 p h) | (2 p) | (3 n life? now) | (4) | (5 i now) | (6) *)
+(* specification side.  events: (1 p h) | (2 p) | (3 n life? now) | (4) | (5 i now [up]) | (6) *)
 Definition as_sop (s : sexp) : option sop :=
   match s with
   | SList [SNum 1; k; h] => odo k <- as_name k ;; odo h <- as_num h ;; Some (SAttach k h)
@@ -84,7 +84,9 @@ Definition as_sop (s : sexp) : option sop :=
   | SList [SNum 3; n; l; t] =>
       odo n <- as_name n ;; odo l <- as_opt as_num l ;; odo t <- as_num t ;; Some (SRecv n l t)
   | SList [SNum 4] => Some SSettle
-  | SList [SNum 5; i; t] => odo i <- as_nat i ;; odo t <- as_num t ;; Some (SReply i t)
+  | SList [SNum 5; i; t] => odo i <- as_nat i ;; odo t <- as_num t ;; Some (SReply i t true)
+  | SList [SNum 5; i; t; u] =>
+      odo i <- as_nat i ;; odo t <- as_num t ;; odo u <- as_bool u ;; Some (SReply i t u)
   | SList [SNum 6] => Some SDisconnect
   | _ => None
   end.
@@ -116,6 +118,9 @@ Definition run (req : sexp) : sexp :=
   | SList [SNum 3; n] => or_bad (odo x <- as_ns_name n ;; Some (s_res s_name (name_normalize x)))
   (* specification: reply decision *)
   | SList [SNum 4; d; t] => or_bad (odo d <- as_num d ;; odo t <- as_num t ;; Some (s_bool (s_reply_sent d t)))
+  (* specification: reply decision given the state of the face *)
+  | SList [SNum 4; d; t; u] =>
+      or_bad (odo d <- as_num d ;; odo t <- as_num t ;; odo u <- as_bool u ;; Some (s_bool (s_reply_out d t u)))
   (* model: the reply closure alone *)
   | SList [SNum 5; d; t; r] =>
       or_bad (odo d <- as_num d ;; odo t <- as_num t ;; odo r <- as_bool r ;;
